@@ -56,8 +56,15 @@ pub fn simple_id(name: &str, port: u16) -> ChitchatId {
 }
 
 /// Real decode + real processing of a datagram; returns the reply bytes.
-/// Err = the datagram did not decode; panics are NOT caught here.
+/// Err = the datagram did not decode, or decoding / processing / serializing the reply panicked ("PANIC ...").
 pub fn feed(cc: &mut Chitchat, bytes: &[u8]) -> Result<Option<(ChitchatMessage, Vec<u8>)>, String> {
+    match catch(|| feed_inner(cc, bytes)) {
+        Ok(r) => r,
+        Err(p) => Err(format!("PANIC in the crate under test: {p}")),
+    }
+}
+
+fn feed_inner(cc: &mut Chitchat, bytes: &[u8]) -> Result<Option<(ChitchatMessage, Vec<u8>)>, String> {
     let mut cur = bytes;
     let msg = ChitchatMessage::deserialize(&mut cur).map_err(|e| format!("{e:#}"))?;
     let reply = cc.verif_process_message(msg);
